@@ -185,19 +185,21 @@ class Scheduler (object):
   def __del__ (self):
     self._hasQuit = True
 
-  def callLater (self, func, *args, **kw):
+  def callLater (_self, _func, *args, **kw):
+    # first args are `_self` and `_func` so that `self` and `func` can be
+    # given as keyword arguments for the function (as core.call_later allows)
     """
     Calls func with the given arguments at some later point, within this
     scheduler.  This is a good way for another thread to call something in
     a co-op-thread-safe manner.
     """
 
-    with self._lock:
-      if self._callLaterTask is None:
-        self._callLaterTask = CallLaterTask()
-        self._callLaterTask.start(self)
+    with _self._lock:
+      if _self._callLaterTask is None:
+        _self._callLaterTask = CallLaterTask()
+        _self._callLaterTask.start(_self)
 
-    self._callLaterTask.callLater(func, *args, **kw)
+    _self._callLaterTask.callLater(_func, *args, **kw)
 
   def runThreaded (self, daemon = False):
     self._thread = Thread(target = self.run)
@@ -1110,10 +1112,10 @@ class CallLaterTask (BaseTask):
     from collections import deque
     self._calls = deque()
 
-  def callLater (self, func, *args, **kw):
-    assert callable(func)
-    self._calls.append((func,args,kw))
-    self._pinger.ping()
+  def callLater (_self, _func, *args, **kw):
+    assert callable(_func)
+    _self._calls.append((_func,args,kw))
+    _self._pinger.ping()
 
   def run (self):
     while True:
